@@ -96,6 +96,15 @@ def namedDefaultOk (r : SpecRow) : Bool :=
   | .param _ (.named m) => (lookupName nameMaps m (textOf cliOptions [] r.option)).isSome
   | _ => true
 
+/-- the `with_default` literal of option `opt` equals (as a number) the default documented for the keyword it sets -/
+def mirrorsLibraryDoc (spec : List SpecRow) (opt : String) : Bool :=
+  match roleOf spec opt, optRow? cliOptions opt with
+  | some (.param kw _), some r =>
+    match libDocDefaults.lookup kw with
+    | some doc => doc != "" && (parseNum r.default.toList).isSome && parseNum r.default.toList == parseNum doc.toList
+    | none => false
+  | _, _ => false
+
 /-- a guard with condition `c` and a non-zero exit code is reached before any data is touched: it is preceded only by
     other non-zero guards, logging effects and stream openings -/
 def reachesGuard (c : Expr) : List Step → Bool
@@ -267,8 +276,19 @@ def Assign.flag (a : Assign) (opt : String) : Option Bool :=
   else if opt == "output-projection-mean-file" then some a.pmean
   else none
 
-/-- truth value of a condition built from `count`, run-time symbols, `true/false`, `!`, `&&`, `||`, `?:` as a function
-    of WHICH flags are present (not how often) -/
+/-- `opt.count(X) ⋈ literal` as a test of presence (`some true`) or absence (`some false`) of the flag; `none` if the
+    comparison is not a function of presence alone (e.g. `count > 1`) -/
+def countCmp (op : BinOp) (s : String) : Option Bool :=
+  if s == "0" then
+    (match op with
+     | .gt => some true | .ne => some true | .eq => some false | .le => some false | _ => none)
+  else if s == "1" then
+    (match op with
+     | .ge => some true | .lt => some false | _ => none)
+  else none
+
+/-- truth value of a condition built from `count` (also `count > 0`, `== 0`, `!= 0`, `<= 0`, `>= 1`, `< 1`), run-time
+    symbols, `true/false`, `!`, `&&`, `||`, `?:` as a function of WHICH flags are present (not how often) -/
 def evalA (a : Assign) : Expr → Option Bool
   | .count x => a.flag x
   | .sym n =>
@@ -286,6 +306,10 @@ def evalA (a : Assign) : Expr → Option Bool
     match evalA a x, evalA a y with
     | some p, some q => some (p || q)
     | some true, _ => some true
+    | _, _ => none
+  | .bin op (.count x) (.lit .int s) =>
+    match countCmp op s, a.flag x with
+    | some pol, some f => some (if pol then f else !f)
     | _, _ => none
   | .ite c x y =>
     match evalA a c with
